@@ -6,9 +6,12 @@ commits no rounding), Float carrier for exp/logistic.  Observable: status, and v
 `precision` (bitwise equality recorded as a statistic).
 predicate: exact bracketing of the true root:  fn(x - precision) <= target <= fn(x)  (increasing),
 and for implied volatility |iv(price(sigma)) - sigma| <= precision.
-Further input classes (predicate only): precisions at / below the resolution of the bracket's dtype on
-an affine family whose float evaluation is exact (error or a point really within `precision`, judged
-with Fractions); prices that DECREASE in volatility (in-the-money binaries, user pricers through
+Further input classes: precisions at / below the resolution of the bracket's dtype on an affine family
+whose float evaluation is exact -- predicate (error or a point really within `precision`, judged with
+Fractions) AND correspondence with the generic model (Model/BisectG.lean, op "bisect_fp") run with IEEE
+binary32 / binary64 midpoint and width: error kind, result dtype and every element's bit pattern must
+be equal (theorems: Lemmas/C19Float.lean).  Predicate only: prices that DECREASE in volatility
+(in-the-money binaries, user pricers through
 find_implied_volatility); modules built from a simulated derivative with the state omitted.
 """
 import math
@@ -188,8 +191,25 @@ def run_resolution_case(torch, c):
     assert [F(x) for x in C.tolist()] == c["c"]
     st, v, mut = call_impl(bisect, fn, target, lower, upper, precision=c["precision"], max_iter=c["max_iter"])
     if st == "ok":
-        return ("ok", tensor_to_fracs(v.expand(len(c["a"])) if v.dim() == 0 else v), str(v.dtype).replace("torch.", "")), mut
-    return ("err", v, None), mut
+        ve = v.expand(len(c["a"])) if v.dim() == 0 else v
+        # float32 -> float64 is exact and injective (no NaN here), so these are the element's bits
+        return ("ok", tensor_to_fracs(ve), str(v.dtype).replace("torch.", ""), enc_flt(ve.double().reshape(-1).tolist())), mut
+    return ("err", v, None, None), mut
+
+
+def to_fp_req(c):
+    """the same case for the generic model with float arithmetic on the bracket (op bisect_fp).  Every number is exactly representable
+    in its dtype (asserted in run_resolution_case), float32 data travels as the equal double.  A 0-dim / Python-float bracket is
+    sent broadcast to the shape of the targets (the first `where` does that in the code).  A Python-float bracket is a float32 tensor
+    whatever the targets' dtype; `fn` then computes in the targets' dtype (type promotion) -- "bracket" / "value" carriers."""
+    n = len(c["a"])
+    lo = c["lower"] if c["form"] == "tensor" else [c["lower"][0]] * n
+    hi = c["upper"] if c["form"] == "tensor" else [c["upper"][0]] * n
+    return {"op": "bisect_fp", "bracket": c["bracket_dtype"], "value": c["target_dtype"],
+            "a": enc_flt([float(x) for x in c["a"]]), "c": enc_flt([float(x) for x in c["c"]]),
+            "target": enc_flt([float(a * F(k, 1 << e)) for a, k, e in zip(c["a"], c["k"], c["e"])]),
+            "lower": enc_flt([float(x) for x in lo]), "upper": enc_flt([float(x) for x in hi]),
+            "precision": float_bits(c["precision"]), "max_iter": c["max_iter"]}
 
 
 def check(ctx):
@@ -482,9 +502,12 @@ def check(ctx):
                          detail={"path": i, "step": j, "iv": float(iv[i, j]), "log_moneyness": float(S[i, j]),
                                  "max_log_moneyness": float(M[i, j]) if M is not None else None, "time_to_maturity": float(T_[i, j])})
     # ---------------- precisions at / below the resolution of the bracket's dtype (exact affine family, judged with Fractions)
+    fp_reqs, fp_impl = [], []
     for _ in range(200 if ctx.tier == "quick" else 2500):
         c = gen_resolution_case(g)
-        (st, val, odt), mut = run_resolution_case(torch, c)
+        (st, val, odt, bits), mut = run_resolution_case(torch, c)
+        fp_reqs.append(to_fp_req(c))
+        fp_impl.append({"ok": bits, "dtype": odt} if st == "ok" else {"err": val})
         canon = {k_: (enc_rat(v_) if isinstance(v_, list) and k_ not in ("k", "e") else v_) for k_, v_ in c.items()}
         if mut:
             ctx.mutated("bisect", mut, canon)
@@ -518,9 +541,24 @@ def check(ctx):
         if reachable and need <= c["max_iter"]:
             ctx.fail("bisect stopped with an error although the precision is reachable within max_iter", canon,
                      key=f"bisect:{c['bracket_dtype']}:root:error", detail={"needed": need})
+    # -- correspondence with the generic model in IEEE arithmetic: bit for bit (error kind / dtype / every element)
+    try:
+        fp_model = ctx.driver(fp_reqs)
+    except DriverBroken as e:
+        ctx.ties_broken.append({"kind": "driver", "detail": str(e)[:1500]})
+        fp_model = [{"bad": "driver"}] * len(fp_reqs)
+    for rq, ri, rm in zip(fp_reqs, fp_impl, fp_model):
+        if isinstance(rm, dict) and "ok" in rm:
+            rm = {"ok": rm["ok"], "dtype": rq["bracket"]}      # the model's result carrier is the bracket's
+        ctx.traces += 1
+        if ri != rm:
+            ctx.disagree("bisect_fp", rq, ri, rm, note="bitwise")
+        else:
+            ctx.stats[f"bisect_fp:{rq['bracket']}/{rq['value']}:{'ok' if 'ok' in ri else ri['err']}:bitwise_equal"] += 1
     return ctx.finish(
         rule="bisect on dyadic-coefficient affine/cubic/square families (increasing and decreasing, per-element coefficients, tensor and scalar "
              "brackets, targets at/near the bracket ends, precisions 2^-2..2^-20, max_iter in {0,3,100,1000}, lower>=upper), exp/logistic in floats, "
              "implied-volatility round trips for the four BS modules (European binary call/put on both sides of the money: increasing and decreasing in "
              "volatility), find_implied_volatility on increasing/decreasing user pricers, modules built from simulated derivatives with omitted state, "
-             "precisions below the float32/float64 resolution on an exactly evaluated affine family; non-trivial = valid bracket; distinct = sha1 of canonical case")
+             "precisions below the float32/float64 resolution on an exactly evaluated affine family (also run bit for bit against the generic model in "
+             "IEEE binary32/binary64 arithmetic, op bisect_fp); non-trivial = valid bracket; distinct = sha1 of canonical case")
